@@ -10,7 +10,7 @@ BOUNDS = {"quick": {"programs": "corpus/cprogs.py (C functions through the real 
                     "symbolic": "all argument values (full type range), initial contents of globals (<=32 bytes) and 16 bytes behind each pointer argument, 4 external call results",
                     "unwinding": "140 IR instructions per run (thorough 300), call depth 3 (paths hitting it are cut and counted)"},
           "thorough": {"configs": "+ optimize levels 1, s; all 9 single passes on every corpus program; 80 sampled 4-block CFG skeletons", "unwinding": "same"}}
-OUTSIDE = ["floating point", "programs outside the corpus", "external functions that modify memory visible to the caller",
+OUTSIDE = ["floating point", "programs outside the corpus", "external functions that modify memory in ways other than the modelled one (every byte an external can name - globals, caller buffers, escaped locals - is XOR-ed with one symbolic byte per call)",
            "executions longer than the unwinding bound"]
 ASSUMPTIONS = ["IR reference semantics ref/irsem.py (wrap-around, truncating / %, arithmetic >> on signed)",
                "premise: the original execution is defined (no division by zero, shift count < width, in-bounds accesses, no read of Undefined)"]
